@@ -17,6 +17,7 @@ const VRS: [VR; 33] = [
 ];
 
 fn main() {
+    std::panic::set_hook(Box::new(|_| {}));
     let fills: [(&str, u8); 4] = [("spaces", b' '), ("NULs", 0), ("digit 1", b'1'), ("digit 0", b'0')];
     let mut found = 0;
     let mut tried = 0u32;
@@ -28,9 +29,7 @@ fn main() {
                     let mut data = vec![fill; len as usize];
                     data.extend_from_slice(&[0xEE; 24]); // bytes of the "next element"
                     let mut cur = Cursor::new(&data[..]);
-                    let r;
-                    let pos;
-                    {
+                    let outcome = std::panic::catch_unwind(std::panic::AssertUnwindSafe(|| {
                         let mut dec = StatefulDecoder::new(
                             &mut cur,
                             ExplicitVRLittleEndianDecoder::default(),
@@ -38,13 +37,26 @@ fn main() {
                             SpecificCharacterSet::default(),
                         );
                         let h = DataElementHeader::new(Tag(0x0009, 0x1001), vr, Length(len));
-                        r = match mode {
+                        let r = match mode {
                             0 => dec.read_value(&h).is_ok(),
                             1 => dec.read_value_preserved(&h).is_ok(),
                             _ => dec.read_value_bytes(&h).is_ok(),
                         };
-                        pos = dec.position();
-                    }
+                        (r, dec.position())
+                    }));
+                    let (r, pos) = match outcome {
+                        Ok(x) => x,
+                        Err(_) => {
+                            found += 1;
+                            if found <= 12 {
+                                println!(
+                                    "WITNESS unit=C07.stateful_decoder fn={} vr={:?} declared_len={} fill={} PANICKED",
+                                    ["read_value", "read_value_preserved", "read_value_bytes"][mode], vr, len, fname
+                                );
+                            }
+                            continue;
+                        }
+                    };
                     let consumed = cur.position();
                     if r && (pos != len as u64 || consumed != len as u64) {
                         found += 1;
@@ -93,4 +105,5 @@ fn main() {
         println!("{} failing cases of {} (first 12 shown)", found, tried);
         println!("reproduce: cargo run --offline --manifest-path /verif/witness/Cargo.toml --bin c07_positions");
     }
+    println!("EXHAUSTIVE unit=C07.value_readers_native cases={} mismatches={}", tried, found);
 }
